@@ -88,13 +88,146 @@ def inline_mir_call(caller, bb, callee):
         if blk.get("cleanup"):
             nb["cleanup"] = True
         if nb["t"].get("k") == "return":
+            nb["was_return"] = True
             if dest is not None and not direct:
                 nb["s"].append({"d": dest, "r": {"k": "use", "op": {"k": "move", "pl": {"l": loff}}}, "ln": ln, "inl": callee["path"]})
             nb["t"] = {"k": "goto", "t": target, "ln": ln} if target is not None else {"k": "unreachable", "ln": ln}
         nb["t"].setdefault("inl", callee["path"])
         caller["blocks"].append(nb)
+    if direct and target is not None:
+        _thread_returns(caller, callee, boff, dest["l"], target)
     for k in [k for k in caller if k.startswith("_")]:
         del caller[k]          # cached CFG / def index
+
+
+def _thread_returns(caller, callee, boff, dest_l, target):
+    """Jump threading across the inlined call: an exit of the helper that is known to return `Err(..)` / `None` (resp. `Ok` / `Some`)
+    is wired directly to the matching arm of the `?` (or `match`) the caller applies to the result, through copies of the one or two
+    blocks that inspect it. Without this, the error exit of the helper and the success arm of the caller are connected in the CFG,
+    and every dominance rule sees a path on which the helper failed and the caller went on."""
+    ty = str(caller["locals"][dest_l]) if dest_l < len(caller["locals"]) else ""
+    is_res = ty.startswith(("std::result::Result<", "core::result::Result<"))
+    is_opt = ty.startswith(("std::option::Option<", "core::option::Option<"))
+    if not (is_res or is_opt):
+        return
+    blocks = caller["blocks"]
+    T = blocks[target]
+    tt = T.get("t") or {}
+    chain, sw = None, None
+    def uses_whole(op, l):
+        return isinstance(op, dict) and op.get("k") in ("move", "copy") and op["pl"]["l"] == l and not op["pl"].get("p")
+    def discr_switch(blk, l):
+        """block computes discriminant(l) and switches on it -> {value: target}"""
+        dl = [st_["d"]["l"] for st_ in blk["s"] if st_["r"].get("k") == "discr" and st_["r"]["pl"]["l"] == l and not st_["r"]["pl"].get("p")]
+        t_ = blk.get("t") or {}
+        if dl and t_.get("k") == "switch" and uses_whole(t_.get("d"), dl[-1]):
+            return {v: b_ for v, b_ in t_["ts"]}, t_.get("o")
+        return None, None
+    if tt.get("k") == "call" and (tt.get("f") or {}).get("k") == "fn" and str(tt["f"]["fn"].get("path", "")).endswith("Try::branch") and tt.get("a") and uses_whole(tt["a"][0], dest_l) and tt.get("d") and tt.get("t") is not None:
+        m_, o_ = discr_switch(blocks[tt["t"]], tt["d"]["l"])
+        if m_ is not None:
+            chain, sw = [target, tt["t"]], {"good": m_.get(0), "bad": m_.get(1, o_)}
+    else:
+        m_, o_ = discr_switch(T, dest_l)
+        if m_ is not None:
+            good_v = 0 if is_res else 1
+            chain, sw = [target], {"good": m_.get(good_v, o_), "bad": m_.get(1 - good_v, o_)}
+    if chain is None or sw["good"] is None or sw["bad"] is None:
+        return
+    made = {}
+    def threaded(kind):
+        if kind not in made:
+            first = None
+            prev = None
+            for n_, bi in enumerate(chain):
+                cp = copy.deepcopy(blocks[bi])
+                cp["threaded"] = kind
+                blocks.append(cp)
+                idx = len(blocks) - 1
+                if first is None:
+                    first = idx
+                if prev is not None:
+                    blocks[prev]["t"]["t"] = idx
+                prev = idx
+            blocks[prev]["t"] = {"k": "goto", "t": sw[kind], "ln": (blocks[prev].get("t") or {}).get("ln")}
+            made[kind] = first
+        return made[kind]
+    n_callee = len(callee["blocks"])
+    inl = range(boff, boff + n_callee)
+    ret_blocks = {i for i in inl if blocks[i].get("was_return")}
+
+    def succs(blk):
+        t_ = blk.get("t") or {}
+        k_ = t_.get("k")
+        if k_ == "goto":
+            return [("t", t_["t"])]
+        if k_ == "switch":
+            return [("ts", i_) for i_ in range(len(t_["ts"]))] + ([("o", t_["o"])] if t_.get("o") is not None else [])
+        if k_ in ("call", "drop", "assert") and t_.get("t") is not None:
+            return [("t", t_["t"])]
+        return []
+
+    def succ_targets(blk):
+        t_ = blk.get("t") or {}
+        out = []
+        for kind_, v in succs(blk):
+            out.append(t_["ts"][v][1] if kind_ == "ts" else v)
+        return out
+
+    def assigned_kind(blk):
+        kind = None
+        for st_ in blk["s"]:
+            if st_["d"]["l"] == dest_l and not st_["d"].get("p"):
+                r_ = st_["r"]
+                kind = "good" if (r_.get("k") == "agg" and r_.get("variant") in ("Ok", "Some")) else "bad" if (r_.get("k") == "agg" and r_.get("variant") in ("Err", "None")) else "unknown"
+        pt = blk.get("t") or {}
+        if pt.get("k") == "call" and pt.get("d") and pt["d"]["l"] == dest_l and not pt["d"].get("p"):
+            fp = str(((pt.get("f") or {}).get("fn") or {}).get("rpath") or ((pt.get("f") or {}).get("fn") or {}).get("path") or "")
+            kind = "bad" if ("FromResidual" in fp or fp.endswith("from_residual")) else "unknown"
+        return kind
+
+    ak = {i: assigned_kind(blocks[i]) for i in inl}
+    # tail duplication: the blocks that run after the result was assigned (drops, storage ends, the former return) are cloned once
+    # per known kind, and the clone of the former return jumps to the threaded continuation
+    for kind in ("good", "bad"):
+        starts = [i for i in inl if ak[i] == kind]
+        if not starts:
+            continue
+        region, st = set(), []
+        for i in starts:
+            st += [x for x in succ_targets(blocks[i]) if x in inl]
+        while st:
+            x = st.pop()
+            if x in region or ak.get(x) is not None:
+                continue
+            region.add(x)
+            st += [y for y in succ_targets(blocks[x]) if y in inl]
+        if not region or not (region & ret_blocks):
+            continue
+        clone = {}
+        for x in sorted(region):
+            blocks.append(copy.deepcopy(blocks[x]))
+            blocks[-1]["threaded"] = kind
+            clone[x] = len(blocks) - 1
+        for x, cx in clone.items():
+            t_ = blocks[cx].get("t") or {}
+            if x in ret_blocks:
+                blocks[cx]["t"] = {"k": "goto", "t": threaded(kind), "ln": t_.get("ln")}
+                continue
+            if t_.get("k") == "switch":
+                t_["ts"] = [[v, clone.get(b_, b_)] for v, b_ in t_["ts"]]
+                if t_.get("o") is not None:
+                    t_["o"] = clone.get(t_["o"], t_["o"])
+            elif t_.get("t") is not None:
+                t_["t"] = clone.get(t_["t"], t_["t"])
+        for i in starts:
+            t_ = blocks[i].get("t") or {}
+            if t_.get("k") == "switch":
+                t_["ts"] = [[v, clone.get(b_, b_)] for v, b_ in t_["ts"]]
+                if t_.get("o") is not None:
+                    t_["o"] = clone.get(t_["o"], t_["o"])
+            elif t_.get("t") is not None:
+                t_["t"] = clone.get(t_["t"], t_["t"])
 
 
 def _remap_hir(x, off, ln=None):
